@@ -915,7 +915,12 @@ func (in *Interp) RunWorker(entry *ssa.Function) {
 		}
 		sh.mu.Unlock()
 		in.pathID = id
+		tp := time.Now()
+		q0 := in.S.Queries
 		in.runPath(entry, p)
+		if in.Cfg.Verbose > 0 && time.Since(tp) > 15*time.Second {
+			fmt.Fprintf(os.Stderr, "LONG path %d: %.0fs steps=%d queries=%d pc=%d crash=%q choices=%d\n", id, time.Since(tp).Seconds(), in.steps, in.S.Queries-q0, len(in.pc), in.observe["crash_before_op"], len(in.trace))
+		}
 		sh.mu.Lock()
 		sh.active--
 		in.flushStats()
